@@ -25,9 +25,9 @@ import (
 
 // c14maxHops: interprocedural steps of one walk (helper results, helper parameters, captured variables). derives uses
 // 3; a generator cut into command / tag / expansion helpers needs more.
-const c14maxHops = 5
+const c14maxHops = 7
 
-var c14transparent = []string{"cmp.Or", "slices.", "maps.", "os.Expand", "unicode.", "unicode/utf8.", "net/netip.", "(net/netip."}
+var c14transparent = []string{"cmp.Or", "slices.", "maps.", "os.Expand", "unicode.", "unicode/utf8.", "net/netip.", "(net/netip.", "net/url.", "(*net/url.URL).", "(net/url.URL).", "path/filepath.", "html.", "net.ParseIP", "(net.IP).String"}
 
 func c14isTransparent(name string) bool {
 	if isTransparent(name) || strings.HasPrefix(name, "builtin.") {
@@ -59,10 +59,22 @@ func c14derives(v ssa.Value, pred func(ssa.Value) bool) bool {
 	}
 	seen := map[key]bool{}
 	hops := 0
-	var stack []ssa.CallInstruction
+	// the calls the walk has descended through: a parameter of frame.fn stands for the argument at frame.call (the
+	// callee is recorded because a call of a function value / an interface method has no static callee to compare with)
+	type frame struct {
+		call ssa.CallInstruction
+		fn   *ssa.Function
+	}
+	var stack []frame
+	topFrame := func() *frame {
+		if len(stack) > 0 {
+			return &stack[len(stack)-1]
+		}
+		return nil
+	}
 	top := func() ssa.CallInstruction {
 		if len(stack) > 0 {
-			return stack[len(stack)-1]
+			return stack[len(stack)-1].call
 		}
 		return nil
 	}
@@ -73,8 +85,8 @@ func c14derives(v ssa.Value, pred func(ssa.Value) bool) bool {
 	params := func(x *ssa.Parameter, f func(ssa.Value) bool) bool {
 		fn := x.Parent()
 		sites := gSites[fn]
-		t := top()
-		if fn != nil && len(sites) == 0 && fn.Parent() != nil && hops < c14maxHops {
+		t := topFrame()
+		if fn != nil && t == nil && len(sites) == 0 && fn.Parent() != nil && hops < c14maxHops {
 			// the body of a range-over-func loop: `for o := range strings.FieldsSeq(s)` hands the loop variable to a
 			// synthetic closure that is passed to the iterator; the variable derives from the iterator's source
 			hops++
@@ -95,9 +107,15 @@ func c14derives(v ssa.Value, pred func(ssa.Value) bool) bool {
 					}
 				}
 			})
-			return found
+			if found {
+				return true
+			}
 		}
-		if fn == nil || len(sites) == 0 || (t == nil && (len(sites) > maxHelperSites || hops >= c14maxHops)) {
+		if fn != nil && t == nil {
+			// a function that is (also) called as a value or through an interface: the call sites by type
+			sites = c14sitesOf(fn)
+		}
+		if fn == nil || (t == nil && (len(sites) == 0 || len(sites) > maxHelperSites || hops >= c14maxHops)) {
 			return false
 		}
 		idx := -1
@@ -109,11 +127,12 @@ func c14derives(v ssa.Value, pred func(ssa.Value) bool) bool {
 		if idx < 0 {
 			return false
 		}
-		if t != nil && t.Common().StaticCallee() == fn {
+		if t != nil && t.fn == fn {
+			fr := *t
 			stack = stack[:len(stack)-1]
-			defer func() { stack = append(stack, t) }()
-			cc := t.Common()
-			return idx < len(cc.Args) && f(cc.Args[idx])
+			defer func() { stack = append(stack, fr) }()
+			a := c14argFor(fr.call, fn, idx)
+			return a != nil && f(a)
 		}
 		if t != nil {
 			return false
@@ -121,7 +140,7 @@ func c14derives(v ssa.Value, pred func(ssa.Value) bool) bool {
 		hops++
 		defer func() { hops-- }()
 		for _, s := range sites {
-			if cc := s.Common(); idx < len(cc.Args) && f(cc.Args[idx]) {
+			if a := c14argFor(s, fn, idx); a != nil && f(a) {
 				return true
 			}
 		}
@@ -160,8 +179,11 @@ func c14derives(v ssa.Value, pred func(ssa.Value) bool) bool {
 			return false
 		}
 		hops++
-		stack = append(stack, call)
+		stack = append(stack, frame{call, sc})
 		defer func() { hops--; stack = stack[:len(stack)-1] }()
+		if c14enter != nil {
+			c14enter(sc)
+		}
 		found := false
 		eachInstr(sc, func(i ssa.Instruction) {
 			r, ok := i.(*ssa.Return)
@@ -208,13 +230,106 @@ func c14derives(v ssa.Value, pred func(ssa.Value) bool) bool {
 		return false
 	}
 	calleesOf := func(cc *ssa.CallCommon) []*ssa.Function {
-		if cc.IsInvoke() {
-			return nil
+		return c14callees(cc)
+	}
+	// mutations: what the repository functions that receive the address `addr` (a locally built struct handed to
+	// `apply(s, ...)`, `s.set(...)`, a handler taken from a table) store through it - into field idx (idx < 0: anywhere).
+	var mutations func(addr ssa.Value, idx int, f func(ssa.Value) bool, d int) bool
+	mutations = func(addr ssa.Value, idx int, f func(ssa.Value) bool, d int) bool {
+		refs := addr.Referrers()
+		if refs == nil || d > 2 || hops >= c14maxHops {
+			return false
 		}
-		if sc := cc.StaticCallee(); sc != nil {
-			return []*ssa.Function{sc}
+		for _, r := range *refs {
+			ci, ok := r.(ssa.CallInstruction)
+			if !ok {
+				continue
+			}
+			if _, isGo := ci.(*ssa.Go); isGo {
+				continue
+			}
+			cc := ci.Common()
+			if sc := cc.StaticCallee(); sc != nil && !isRepoFn(sc) {
+				continue
+			}
+			for _, g := range calleesOf(cc) {
+				if g == nil || !isRepoFn(g) || len(g.Blocks) == 0 {
+					continue
+				}
+				for k, p := range g.Params {
+					if c14argFor(ci, g, k) != addr || p.Referrers() == nil {
+						continue
+					}
+					hops++
+					stack = append(stack, frame{ci, g})
+					if c14enter != nil {
+						c14enter(g)
+					}
+					found := false
+					for _, pr := range *p.Referrers() {
+						switch y := pr.(type) {
+						case *ssa.FieldAddr:
+							if idx >= 0 && y.Field != idx {
+								continue
+							}
+							for _, r2 := range *y.Referrers() {
+								if st, ok := r2.(*ssa.Store); ok && st.Addr == y && f(st.Val) {
+									found = true
+								}
+							}
+						case *ssa.Store:
+							if y.Addr == p && idx < 0 && f(y.Val) {
+								found = true
+							}
+						}
+						if found {
+							break
+						}
+					}
+					if !found && mutations(p, idx, f, d+1) {
+						found = true
+					}
+					stack = stack[:len(stack)-1]
+					hops--
+					if found {
+						return true
+					}
+				}
+			}
 		}
-		return funcsOf(cc.Value)
+		return false
+	}
+	// addrStores: the values stored through addresses computed from base (fields of elements of a literal table).
+	var addrStores func(base ssa.Value, f func(ssa.Value) bool, d int) bool
+	addrStores = func(base ssa.Value, f func(ssa.Value) bool, d int) bool {
+		refs := base.Referrers()
+		if refs == nil || d > 3 {
+			return false
+		}
+		for _, r := range *refs {
+			switch y := r.(type) {
+			case *ssa.FieldAddr:
+				if y.X != base {
+					continue
+				}
+			case *ssa.IndexAddr:
+				if y.X != base {
+					continue
+				}
+			default:
+				continue
+			}
+			a := r.(ssa.Value)
+			for _, r2 := range *a.Referrers() {
+				if st, ok := r2.(*ssa.Store); ok && st.Addr == a && f(st.Val) {
+					return true
+				}
+			}
+			if addrStores(a, f, d+1) {
+				return true
+			}
+		}
+		return false
 	}
 
 	walk = func(v ssa.Value) bool {
@@ -267,22 +382,20 @@ func c14derives(v ssa.Value, pred func(ssa.Value) bool) bool {
 						if y.Addr == x && walk(y.Val) {
 							return true
 						}
-					case *ssa.FieldAddr:
-						for _, r2 := range *y.Referrers() {
-							if st, ok := r2.(*ssa.Store); ok && st.Addr == y && walk(st.Val) {
-								return true
-							}
-						}
-					case *ssa.IndexAddr:
-						for _, r2 := range *y.Referrers() {
-							if st, ok := r2.(*ssa.Store); ok && st.Addr == y && walk(st.Val) {
-								return true
-							}
-						}
 					}
 				}
 			}
+			if addrStores(x, walk, 0) || mutations(x, -1, walk, 0) {
+				return true
+			}
 			return closureStores(x, walk)
+		case *ssa.Global:
+			// a package-level variable (a table of options, schemes, builders): what is assigned to it anywhere
+			for _, st := range gGlobalStores[x] {
+				if walk(st.Val) {
+					return true
+				}
+			}
 		case *ssa.MakeMap:
 			if refs := x.Referrers(); refs != nil {
 				for _, r := range *refs {
@@ -391,7 +504,7 @@ func c14derives(v ssa.Value, pred func(ssa.Value) bool) bool {
 					}
 				}
 			}
-			return false
+			return mutations(x, idx, walk, 0)
 		case *ssa.UnOp:
 			if x.Op == token.MUL {
 				if a, ok := x.X.(*ssa.Alloc); ok {
@@ -493,29 +606,33 @@ func c14builderWrites(b ssa.Value, f func(ssa.Value) bool) bool {
 // c14slice enumerates the backward slice of v and returns the functions that own a visited value.
 func c14slice(v ssa.Value, visit func(ssa.Value)) map[*ssa.Function]bool {
 	owners := map[*ssa.Function]bool{}
+	// a helper whose results are constants, or which only stores constants through a pointer it was given, contributes
+	// no instruction value of its own: the walk reports the functions it enters
+	enter := func(g *ssa.Function) {
+		if g != nil && isRepoFn(g) && len(g.Blocks) > 0 {
+			owners[unwrap(g)] = true
+		}
+	}
+	old := c14enter
+	c14enter = enter
+	defer func() { c14enter = old }()
 	c14derives(v, func(x ssa.Value) bool {
 		if f := c14parent(x); f != nil {
 			owners[f] = true
 		}
-		// a helper whose results are constants contributes no instruction value of its own
-		if call, ok := x.(*ssa.Call); ok && !call.Call.IsInvoke() {
-			fns := funcsOf(call.Call.Value)
-			if sc := call.Call.StaticCallee(); sc != nil {
-				fns = []*ssa.Function{unwrap(sc)}
-			}
-			for _, g := range fns {
-				if g != nil && isRepoFn(g) && len(g.Blocks) > 0 {
-					owners[g] = true
-				}
-			}
-		}
 		if visit != nil {
+			c14enter = nil
 			visit(x)
+			c14enter = enter
 		}
 		return false
 	})
 	return owners
 }
+
+// c14enter, when set, is told every function a walk of c14derives descends into (results of a call, stores through a
+// pointer argument).
+var c14enter func(*ssa.Function)
 
 func c14parent(v ssa.Value) *ssa.Function {
 	switch x := v.(type) {
